@@ -71,6 +71,13 @@ class Ctx:
             "piped_exts": knobs.get("piped_exts", ()),
             "emfile_at": knobs.get("emfile_at"),
         }
+        if argv and argv[-1] == "-":
+            # the (single) input file is fed to standard input
+            cands = sorted(p for p in files if p == "/simfs/in" or p.startswith("/simfs/in."))
+            if len(cands) != 1:
+                raise HarnessError(f"standard input wanted but input files are {cands}")
+            env["stdin_path"] = cands[0]
+            env["stdin_kind"] = knobs.get("stdin_kind", "file")
         res = harness.run_sim(argv, files, chooser, capacity=cap, feeder=feeder, keep_log=self.keep_log or parallel,
                               env=env)
         if parallel:
